@@ -9,6 +9,6 @@ CONSTANTS
   TemplateIds = {"ak=x", "vxy", "k=xb", "ax", "xb"}
   OpMethods = {"GET", "POST"}
   ReqMethods = {"get", "POST"}
-  SegIds = {"a", "b", "api", ":", "k=:", "k=a", "k=*a", "k=", "v:", "va#", "v"}
+  SegIds = {"a", "b", "api", "k=:", "k=a", "k=", "v:", "va#"}
 INVARIANTS PropertyHolds
 CHECK_DEADLOCK FALSE
